@@ -22,8 +22,8 @@ import (
 )
 
 type c06Call struct {
-	Kind   string `json:"kind"`   // call | sub
-	Cancel string `json:"cancel"` // none | before | running | race | established | pending (subscription cancelled before its call was answered)
+	Kind   string `json:"kind"`           // call | sub
+	Cancel string `json:"cancel"`         // none | before | running | race | established | pending (subscription cancelled before its call was answered)
 	Bare   bool   `json:"bare,omitempty"` // sub: through the method whose only result is the channel
 }
 
